@@ -20,3 +20,18 @@ Qed.
 Theorem unguarded_send_can_block s :
   s_guarded s = false -> fst (call_after_shutdown [s; s] 1) = BlockedForever.
 Proof. intros H. cbn. unfold send_after_shutdown. rewrite H. destruct (s_buffered s); reflexivity. Qed.
+
+(* the event loop never blocks on an answer: for every request in a safe inventory, whatever the caller does that it
+   is able to do, the loop's send returns *)
+Theorem loop_reply_returns l r caller_left :
+  all_replies_safe l = true -> In r l -> (caller_left = true -> caller_may_leave r = true) -> reply_send r caller_left = Returned.
+Proof.
+  intros H Hin Hc. unfold all_replies_safe in H. rewrite forallb_forall in H. specialize (H r Hin). unfold reply_safe in H.
+  unfold reply_send. destruct (r_buffered r); [reflexivity|]. cbn in H.
+  destruct caller_left; [|reflexivity]. specialize (Hc eq_refl). unfold caller_may_leave in Hc. rewrite H in Hc. discriminate.
+Qed.
+(* and an unbuffered reply channel whose maker may leave is enough to hang the loop for good *)
+Theorem unsafe_reply_blocks_loop r : reply_safe r = false -> caller_may_leave r = true /\ reply_send r true = BlockedForever.
+Proof.
+  unfold reply_safe, caller_may_leave, reply_send. intros H. apply orb_false_iff in H. destruct H as [Hb Hp]. rewrite Hb, Hp. split; reflexivity.
+Qed.
